@@ -22,6 +22,33 @@ CLAIMS = {
         ref='DESIGN.md section 3, C05'),
 }
 
+CLAIMS['C01'] = dict(
+    text='Static must-pass / ordering analysis of the file storage commit '
+         'protocol on all paths including exception edges: status write -> '
+         'flush -> fsync before anything is published or the commit returns; '
+         'the voted header carries the checkpoint status and finish '
+         'overwrites exactly that byte; vote writes header/records/length/'
+         'flush in order and truncates on a failed write; nothing but vote/'
+         'finish/abort/pack/open touches the data file; the open-time scan '
+         'never indexes a checkpointed or short transaction.  Decides this '
+         'protocol structure, not that every torn byte offset is handled.',
+    technique='must-pass-through and ordering automata over an inlined CFG '
+              'with exception edges; call-graph confinement; struct-format '
+              'constant evaluation',
+    ref='DESIGN.md section 3, C01')
+CLAIMS['C03'] = dict(
+    text='Static guard-dominance and provenance analysis of every store path '
+         'of the three bundled storages and of Connection.commit: a serial '
+         'comparison (both orderings) dominates staging, a differing serial '
+         'stages only resolved data or raises, the commit lock serialises '
+         '2PC and is never taken under the storage lock, read dependencies '
+         'are verified inside the commit and never dropped revocably.  '
+         'Decides these clauses for all paths; not serial-replay equivalence '
+         'of final values.',
+    technique='guard dominance + def-use provenance + three-ordering '
+              'evaluation of comparisons over an ast-built CFG',
+    ref='DESIGN.md section 3, C03')
+
 NOT_YET = {}
 
 
